@@ -14,7 +14,6 @@ use crate::handlers::hunk_header::{AmbiguousDiffMinusCounter, ParsedHunkHeader};
 use crate::handlers::{self, merge_conflict};
 use crate::paint::Painter;
 use crate::style::DecorationStyle;
-use crate::utils;
 
 #[derive(Clone, Debug, PartialEq, Eq)]
 pub enum State {
@@ -193,21 +192,9 @@ impl<'a> StateMachine<'a> {
     fn ingest_line(&mut self, raw_line_bytes: &[u8]) {
         match String::from_utf8(raw_line_bytes.to_vec()) {
             Ok(utf8) => self.ingest_line_utf8(utf8),
-            Err(_) => {
-                let raw_line = String::from_utf8_lossy(raw_line_bytes);
-                // A maximum line length of 0 means "no limit" (as for valid UTF-8 input).
-                let truncated_len = if self.config.max_line_length > 0 {
-                    utils::round_char_boundary::floor_char_boundary(
-                        &raw_line,
-                        self.config.max_line_length,
-                    )
-                } else {
-                    raw_line.len()
-                };
-                self.raw_line = raw_line[..truncated_len].to_string();
-                // As for valid UTF-8 input: `line` is `raw_line` without escape sequences.
-                self.line = ansi::strip_ansi_codes(&self.raw_line);
-            }
+            // Invalid UTF-8 is replaced; the line is then treated like any other (in particular
+            // it is truncated with the truncation symbol if it is too long).
+            Err(_) => self.ingest_line_utf8(String::from_utf8_lossy(raw_line_bytes).into_owned()),
         }
     }
 
